@@ -114,10 +114,16 @@ def tokErr : Err Float → List Tok
   | .indexError x n => [.s "err", .s "IndexError", .f x (1.0 / 0.0), .s (toString n)]
   | e => (encErr e).map Tok.s
 
+/-- the model's panic tags as the classes the harness reports -/
+def canonPanic (t : String) : String :=
+  if t == "partial_cmp unwrap" then "sort"
+  else if t == "index out of bounds" then "other"
+  else t
+
 def tokOutcome {α : Type} (f : α → List Tok) : Outcome (Err Float) α → List Tok
   | .ok a => .s "ok" :: f a
   | .err e => tokErr e
-  | .panic t => [.s "panic", .s t]
+  | .panic t => [.s "panic", .s (canonPanic t)]
 
 /-- parse an implementation outcome `ok I2 a b | ok IU a | ok IL b` -/
 def pImplInterval {F : Type} [Codec F] (ts : List String) : Option (Interval F) :=
